@@ -5,6 +5,13 @@ props = [json.loads(l) for l in open(os.path.join(HERE, "properties.jsonl"))]
 ids = [p["id"] for p in props]
 
 CLAIMED = {
+ "C15": dict(
+    text="Theorems over a heap/aliasing model of the eight settings classes: non-interference for EVERY history of construct / in-place write / assign / save / load given that every mutable default is stored "
+         "by a deep-enough copy (decided on the class table), defaults and later objects pristine, save/load and dispatching reader preserve class and content (induction on Json), every registered "
+         "method alias dispatches to its class; alias storage provably breaks non-interference (counterexample). Tied to the code by op-by-op mirrored histories on the real classes, direct oracles and "
+         "the bridge on the extracted class table (attributes, default kinds, store kinds) and dispatch chain.",
+    note="Known findings C15-c/C15-d (explicit fft_settings / instrument_transfer_function stored by alias) are reported as KNOWN-FINDING. Trusted: Python json. numpy dtype coercion is outside the model.",
+    technique="Lean 4 theorems (induction over op histories) + history correspondence + class-table bridge", design="5/C15"),
  "C16": dict(
     text="Theorems over the Lean model of sesame.py (threshold table incl. band edges, reliability/clarity = guideline criteria, monotonicity of ii and v), "
          "model tied to the code by a bridge on the extracted constants (regenerated from source every run) and by differential execution of "
@@ -37,6 +44,13 @@ CLAIMED = {
          "stack of single-azimuth results at a fixed point of the FFT state. Tied to the code by orient_sensor_to and process correspondence and by metamorphic runs at the default FFT length.",
     note="RotDpp monotonicity/bounds in the percentile are tested on the implementation (np.percentile trusted), not proved.",
     technique="Lean 4 theorems (trigonometric identities, fold induction) + differential correspondence", design="5/C04"),
+ "C07": dict(
+    text="Theorems over a token-level model of the readers: trace routing by channel suffix for every permutation (sound, complete, errors on missing/duplicate/other suffix), SAF column "
+         "assignment for every V/N/E channel map, MiniShark scaling and its inverse, PEER routing for all six file orders (numeric and letter codes), sample-count mismatches raise in every text format, "
+         "orientation rules (explicit value overrides metadata), read() argument broadcasting, first-success dispatch. Tied to the code by GENERATED files of every format (obspy writers for MSEED/SAC/GCF, own "
+         "renderers for SAF/MiniShark/PEER; LF/CRLF; all orders; error streams) read through hvsrpy.read, and by the bridge on dispatch order, constants and regex sources.",
+    note="Known finding C07-b (PEER horizontals equally far from north) is reported as KNOWN-FINDING. Trusted: obspy encode/decode pair, Python re (regex strings are tied by the bridge only; no lexer model).",
+    technique="Lean 4 theorems (finite permutations + all-list statements) + generated-file correspondence + bridge", design="5/C07"),
  "C08": dict(
     text="Theorems over the Lean peak model (soundness of the local-maximum search, completeness for strict maxima, peak = highest interior maximum of the slice, "
          "absent iff no interior maximum, peaks track the last range after ANY sequence of range updates and mask writes); tied to the code by differential execution on "
@@ -130,7 +144,7 @@ for pid in ids:
         ))
 manifest = dict(
     version=1,
-    setup_cmd="cd lean && lake build HvsrVerif hvsrdrv drv_c10 drv_c14 drv_c19",
+    setup_cmd="cd lean && lake build HvsrVerif hvsrdrv drv_c07 drv_c10 drv_c14 drv_c15 drv_c19",
     hooks=dict(guard="HVSRPY_VERIF", enable="HVSRPY_VERIF=1 (set by the harness; no source hooks are needed)",
                baseline_off_cmd="cd /repo && /venv/bin/python -m pytest -ra -q -p no:cacheprovider --timeout=900 --continue-on-collection-errors",
                source_commits=[], add_only=True),
